@@ -24,6 +24,9 @@ CLAIMED = {
  "C09": ("exploration", "differential monitor: independent CRC16/hash-tag model + backend execution logs",
    "Generated slot layouts installed through UMCTL SETCLUSTER on a real proxy; random/binary/brace/slot-targeted keys; every probe is judged by an independent slot model and by which FakeRedis node executed what.",
    "section 2, C09"),
+ "C20": ("exploration", "end-to-end differential monitor (client bytes vs. bytes stored in the Redis stand-in)",
+   "Whole path broker -> coordinator encoding -> two real proxies -> FakeRedis; every writer/reader pair, value class, strategy and redirect mode; stored bytes are zstd-decoded and compared, replies compared byte-for-byte, restricted commands must be refused and not executed.",
+   "section 2, C20"),
  "C15": ("exploration", "differential monitor against a strict reference RESP parser/encoder",
    "Generated values and pipelines, every 1-cut split of short streams plus random k-cut splits, through all eight decoder entry points (incl. RespCodec under FramedRead and the paired multi codec) and seven encoder entry points; negative inputs judged by the reference parser.",
    "section 2, C15"),
